@@ -32,7 +32,8 @@ META = {
                    "initialisation: leaf filters, min/max accumulators, control dependence of the scheduled flag on the "
                    "all-children test."
                    " Also: who-may-call rules for initScoreboard and scheduleContainer, unconditional roll-up writes, children-first (or fixpoint) roll-up order, roll-up around the readiness scan, finishScenario post-dominating scheduleScenario, and binding of defaulted scenario parameters."
-                   " Round 3: completeness of both roll-ups as a must-fact for every child whose dates enter the span; process-state rule.",
+                   " Round 3: completeness of both roll-ups as a must-fact for every child whose dates enter the span; process-state rule."
+                   " Round 4: container dates never pass through the slot grid; the two roll-ups are treated as redundant for values, not for completeness.",
     "assumptions": [],
 }
 
